@@ -561,6 +561,11 @@ fn fixed_programs() -> Vec<String> {
         "Foo ← map [1 2] [3 4]\n⊂Foo Foo",
         "÷∞ ∞",
         "¯NaN",
+        "map [5] ≡□[1]",
+        "map [5] ¤□1",
+        "X ← map[5]⍚∘[1]\nX",
+        "map \"a\" ≡□[1]",
+        "map [5 6] ≡□[1 2]",
         "⍜(×∞)(+1) 5",
     ]
     .into_iter()
@@ -764,7 +769,11 @@ fn check_program(name: &str, src: &str, argsets: &[Vec<Value>], st: &mut Stats) 
         if let Err((kind, detail)) = compare_runs(&a, &b) {
             differs = true;
             let spelled = has_scalar_spelling(&text);
-            let key = if kind == "value" && detail.starts_with("show") && detail.contains("¯NaN") {
+            let one_row_box_map = a.stack.iter().zip(&b.stack).any(|(x, y)| x.is_map() && !y.is_map() && matches!(x, Value::Box(_)) && x.shape.iter().copied().collect::<Vec<_>>() == vec![1]);
+            let key = if one_row_box_map {
+                // [[1], keys, [{"b":..}]] is also a list of three boxes, which the reader tries first
+                "uasm-one-row-box-map-reads-as-list".to_string()
+            } else if kind == "value" && detail.starts_with("show") && detail.contains("¯NaN") {
                 // the sign of a NaN constant is not kept ("NaN" spelling): visible when printed
                 "uasm-nan-sign-lost".to_string()
             } else if let Some(s) = spelled {
@@ -919,6 +928,21 @@ fn tie_values(r: &mut Rng, n: usize) {
         num(&[], &[255.0]),
         byte(&[], &[255]),
     ];
+    // one-row maps: a box array of shape [1] with keys is the open defect (reads back as a list of three boxes)
+    for (vals1, keys1) in [
+        (boxes(&[1], vec![byte(&[], &[1])]), num(&[1], &[5.0])),
+        (boxes(&[1], vec![chars(&[2], &['h', 'i'])]), boxes(&[1], vec![chars(&[1], &['k'])])),
+        (boxes(&[1], vec![num(&[], &[2.5])]), chars(&[1], &['a'])),
+        (num(&[1], &[2.5]), num(&[1], &[5.0])),
+        (boxes(&[1, 1], vec![byte(&[], &[1])]), num(&[1], &[5.0])),
+        (boxes(&[2], vec![byte(&[], &[1]), byte(&[], &[2])]), num(&[2], &[5.0, 6.0])),
+    ] {
+        if let Some(m) = run_uiua_with("map", &[vals1, keys1]).ok().and_then(|mut s| s.pop()) {
+            let mut m = m;
+            uiua::verif::clear_flags(&mut m);
+            vals.push(m);
+        }
+    }
     // numbers the old representation lost: NaN signs and payloads, floats that the default parser of
     // serde_json read 1 ulp off, and arbitrary bit patterns
     for bits in [0xfff8000000000000u64, 0x7ff8000000000004, 0x7ff0000000000001, 0xfff0000000000000, 0x8000000000000000, 0x1, 0x7fefffffffffffff] {
